@@ -107,8 +107,38 @@ type sliceReader struct {
 
 func (s sliceReader) Read(p []byte) (int, error) { return s.r.Read(p) }
 
+// errClosed is how a source reports its end when it wraps the sentinel: it
+// is not io.EOF itself, so for the parser it is a failing read.
+var errClosed = fmt.Errorf("source closed: %w", io.EOF)
+
+// wrappedEOFReader ends with an error that wraps io.EOF.
+type wrappedEOFReader struct{ r *strings.Reader }
+
+func (w wrappedEOFReader) Read(p []byte) (int, error) {
+	n, err := w.r.Read(p)
+	if err == io.EOF {
+		err = errClosed
+	}
+	return n, err
+}
+
+// wrappedEOFScanner is the same as an io.RuneScanner.
+type wrappedEOFScanner struct{ runeScanner }
+
+func (c *wrappedEOFScanner) ReadRune() (rune, int, error) {
+	r, w, err := c.runeScanner.ReadRune()
+	if err == io.EOF {
+		err = errClosed
+	}
+	return r, w, err
+}
+
 func source(kind, s string) interface{} {
 	switch kind {
+	case "wrapped-eof-reader":
+		return wrappedEOFReader{strings.NewReader(s)}
+	case "wrapped-eof-scanner":
+		return &wrappedEOFScanner{runeScanner{s: s}}
 	case "lenient":
 		return &lenientScanner{s: s}
 	case "garbage":
@@ -158,6 +188,9 @@ func handle(r wproto.Req) (resp wproto.Resp) {
 		}
 	}()
 	resp.OK = true
+	if r.N > 0 {
+		r.Src = r.Head + strings.Repeat(r.Unit, r.N) + r.Src
+	}
 	switch r.Op {
 	case "parse":
 		var cmds []ast.Command
